@@ -126,6 +126,32 @@ def real(name: str):
     return _real[name]
 
 
+class _ApiTypeError(TypeError):
+    """TypeError that the file API itself is specified to raise (e.g. bytes written to a text file)."""
+
+
+def _guard(fn):
+    """A bug INSIDE the simulator must never look like an ordinary failure of the code under test: anything other than the
+    exceptions the seam raises on purpose marks the run as aborted (harness error at the end of the run)."""
+    import functools
+
+    @functools.wraps(fn)
+    def wrapper(self, *args, **kw):
+        try:
+            return fn(self, *args, **kw)
+        except (SimKilled, SimInterrupt, OSError, HarnessError, ValueError, UnicodeError, _ApiTypeError):
+            raise
+        except Exception as e:  # noqa: BLE001
+            sim = self if isinstance(self, Simulation) else getattr(self, "_sim", None)
+            if sim is not None:
+                import traceback
+
+                sim.aborting = sim.aborting or f"internal error in the simulator: {type(e).__name__}: {e} :: {traceback.format_exc()[-600:]}"
+            raise HarnessError(f"internal error in the simulator: {type(e).__name__}: {e}") from e
+
+    return wrapper
+
+
 class Op:
     __slots__ = ("actor", "idx", "name", "path", "path2", "fd", "detail", "outcome", "gidx")
 
@@ -580,6 +606,7 @@ class Simulation:
             p = _real_getcwd() + "/" + p
         return os.path.normpath(p) if ("/./" in p or p.endswith("/.") or "//" in p or p.endswith("/")) else p
 
+    @_guard
     def syscall(self, a: Actor, name: str, args, kw):
         """Interposed os.<name> issued by actor ``a``."""
         fn = _real[name]
@@ -799,6 +826,7 @@ class Simulation:
 
     # ----------------------------------------------------------------- flock seam
     # A lock belongs to an open file description: self.locks[inode] = (actor id, fd).
+    @_guard
     def flock(self, a: Actor, fd, operation):
         import fcntl
         if fd not in a.fds:
@@ -812,7 +840,7 @@ class Simulation:
         me = (a.id, fd)
         if operation & fcntl.LOCK_UN:
             kind, en = self.yield_point(a, op)
-            self._lock_directive(a, op, kind)
+            self._lock_directive(a, op, kind, en)
             info.pop("locked", None)
             if self.locks.get(ino) == me:
                 del self.locks[ino]
@@ -824,14 +852,14 @@ class Simulation:
             holder = self.locks.get(ino)
             if holder is None or holder == me:
                 kind, en = self.yield_point(a, op)
-                self._lock_directive(a, op, kind)
+                self._lock_directive(a, op, kind, en)
                 holder = self.locks.get(ino)
                 if holder is None or holder == me:
                     break
                 continue  # somebody took it while we were parked at the yield point
             if nonblocking:
                 kind, en = self.yield_point(a, op)
-                self._lock_directive(a, op, kind)
+                self._lock_directive(a, op, kind, en)
                 op.outcome = "EWOULDBLOCK"
                 raise BlockingIOError(_errno.EWOULDBLOCK, "Resource temporarily unavailable")
             self.probes["flock_blocked"] += 1
@@ -876,17 +904,19 @@ class Simulation:
         self.vtime += 1e-4  # every read makes a little progress, so polling loops terminate
         return self.vtime
 
+    @_guard
     def sleep(self, a: Actor, seconds: float):
         if a.dead:
             raise SimKilled()
         op = Op(a.id, a.op_count, "sleep", None, None, None, round(float(seconds), 6))
         a.op_count += 1
         kind, en = self.yield_point(a, op)
-        self._lock_directive(a, op, kind)
+        self._lock_directive(a, op, kind, en)
         self.vtime += max(0.0, float(seconds))
         self.sleeps += 1
         op.outcome = "ok"
 
+    @_guard
     def lockf(self, a: Actor, fd, cmd, length=0, start=0, whence=0):
         import fcntl
         if fd not in a.fds:
@@ -899,7 +929,7 @@ class Simulation:
         a.op_count += 1
         if cmd & fcntl.LOCK_UN:
             kind, en = self.yield_point(a, op)
-            self._lock_directive(a, op, kind)
+            self._lock_directive(a, op, kind, en)
             if self.plocks.get(ino) == a.id:
                 del self.plocks[ino]
             op.outcome = "ok"
@@ -908,14 +938,14 @@ class Simulation:
             holder = self.plocks.get(ino)
             if holder is None or holder == a.id:
                 kind, en = self.yield_point(a, op)
-                self._lock_directive(a, op, kind)
+                self._lock_directive(a, op, kind, en)
                 holder = self.plocks.get(ino)
                 if holder is None or holder == a.id:
                     break
                 continue
             if cmd & fcntl.LOCK_NB:
                 kind, en = self.yield_point(a, op)
-                self._lock_directive(a, op, kind)
+                self._lock_directive(a, op, kind, en)
                 op.outcome = "EAGAIN"
                 raise BlockingIOError(_errno.EAGAIN, "Resource temporarily unavailable")
             self.probes["lockf_blocked"] += 1
@@ -935,7 +965,7 @@ class Simulation:
         op.outcome = "ok"
         return None
 
-    def _lock_directive(self, a, op, kind):
+    def _lock_directive(self, a, op, kind, en=None):
         if kind == "realkill":
             import signal
 
@@ -986,6 +1016,7 @@ class _ShuffledScandir:
     def __next__(self):
         return next(self._it)
 
+    @_guard
     def close(self):
         pass
 
@@ -1097,6 +1128,7 @@ class SimFile:
     def isatty(self):
         return False
 
+    @_guard
     def read(self, n=-1):
         self._check()
         if not self._readable:
@@ -1112,6 +1144,7 @@ class SimFile:
             self._rpos += len(out)
         return out
 
+    @_guard
     def readline(self, limit=-1):
         self._check()
         if not self._readable:
@@ -1138,11 +1171,14 @@ class SimFile:
             raise StopIteration
         return line
 
+    @_guard
     def write(self, s):
         self._check()
         if not self._writable:
             raise io.UnsupportedOperation("not writable")
         if self._binary:
+            if isinstance(s, str):
+                raise _ApiTypeError("a bytes-like object is required, not 'str'")
             data = bytes(s)
             n = len(data)
             if self._raw:
@@ -1150,7 +1186,7 @@ class SimFile:
                 return os.write(self._fd, data)
         else:
             if not isinstance(s, str):
-                raise TypeError(f"write() argument must be str, not {type(s).__name__}")
+                raise _ApiTypeError(f"write() argument must be str, not {type(s).__name__}")
             if self._newline in ("\r\n", "\r"):
                 s_out = s.replace("\n", self._newline)  # as TextIOWrapper: '\n' written by the program becomes the given newline
             else:
@@ -1167,6 +1203,7 @@ class SimFile:
         for ln in lines:
             self.write(ln)
 
+    @_guard
     def flush(self):
         self._check()
         if self._writable:
@@ -1418,6 +1455,10 @@ def _make_entropy_wrappers():
         return 40000 + a.id
 
     os.urandom, os.getpid = urandom, getpid
+    import random as _random_mod
+
+    _real["random._urandom"] = _random_mod._urandom
+    _random_mod._urandom = urandom  # SystemRandom / secrets read entropy through this module-level name
 
 
 def _make_time_wrappers():
@@ -1497,6 +1538,9 @@ def uninstall():
     _time.sleep, _time.monotonic, _time.time, _time.perf_counter = (
         _real["time.sleep"], _real["time.monotonic"], _real["time.time"], _real["time.perf_counter"])
     os.urandom, os.getpid = _real["urandom"], _real["getpid"]
+    import random as _random_mod
+
+    _random_mod._urandom = _real["random._urandom"]
     try:
         import fcntl
         fcntl.flock = _real["flock"]
